@@ -1,6 +1,492 @@
 import Driver.Util
-open Lean
+import ProcSim.Model.ICase
+import ProcSim.Model.Bag
+import ProcSim.Model.Program
+import ProcSim.Model.Isa
+import ProcSim.Model.Cli
+import ProcSim.Spec.Text
+/-!
+JSON ops of the component "text" (C14 – C18). Protocol: see the doc comment of every `op…` below and
+`harness/comp_text.py`. Strings cross the boundary as JSON strings and are `List Char` inside.
+Errors of the implementation arrive as `{"class": …, "fields": {…}, "message": …}`.
+-/
+open Lean ProcSim
 namespace Driver.TextOps
-/-- stub: filled in by the Text component -/
-def handle : Driver.Handler := fun _ _ => none
+open ProcSim.Spec.Text
+
+abbrev E := Except String
+
+def chars (j : Json) : E (List Char) := do return (← j.getStr?).toList
+def jchars (l : List Char) : Json := Json.str (String.ofList l)
+def getChars (j : Json) (k : String) : E (List Char) := do chars (← j.getObjVal? k)
+def charsList (j : Json) : E (List (List Char)) := do (← asArr j).mapM chars
+def jcharsList (l : List (List Char)) : Json := jarr (l.map jchars)
+def jopt (o : Option String) : Json := match o with | none => Json.null | some s => Json.str s
+def jbool (b : Bool) : Json := Json.bool b
+def verdict (prop : String) (k : Bool) (o : Option String) : List (String × Json) :=
+  [("k", Json.mkObj [(prop, jbool k)]), ("o", Json.mkObj [(prop, jopt o)])]
+
+def pair2 (j : Json) : E (Json × Json) := do
+  match (← asArr j) with
+  | [a, b] => return (a, b)
+  | _ => throw "expected a 2-element array"
+
+/-- `{"class","fields","message"}` of an implementation error -/
+structure ImplErr where
+  cls : String
+  fields : Json
+  msg : String
+
+def implErr (j : Json) : E ImplErr := do
+  return { cls := ← getStr j "class", fields := (optField j "fields").getD Json.null,
+           msg := ((optField j "message").bind (fun m => m.getStr?.toOption)).getD "" }
+
+def jerr (cls : String) (fields : List (String × Json)) (msg : String) : Json :=
+  Json.mkObj [("err", Json.mkObj [("class", Json.str cls), ("fields", Json.mkObj fields), ("message", Json.str msg)])]
+
+/-! ## C18 `icase` -/
+
+def bit (b : Bool) : Char := if b then '1' else '0'
+
+def obsBits (o : PairObs) : String :=
+  String.ofList [bit o.eqAB, bit o.eqBA, bit o.neAB, bit o.ltAB, bit o.ltBA, bit o.leAB, bit o.leBA,
+    bit o.gtAB, bit o.geAB, bit o.bInA, bit o.aInB, bit o.hashEq]
+
+def jobs (o : PairObs) : Json := jarr [Json.str (obsBits o), jchars o.strA, jchars o.strB]
+
+def parseObs (j : Json) : E PairObs := do
+  match (← asArr j) with
+  | [b, sa, sb] =>
+    let bs := (← b.getStr?).toList.map (· == '1')
+    match bs with
+    | [e1, e2, ne, l1, l2, le1, le2, g, ge, c1, c2, h] =>
+      return { eqAB := e1, eqBA := e2, neAB := ne, ltAB := l1, ltBA := l2, leAB := le1, leBA := le2,
+               gtAB := g, geAB := ge, bInA := c1, aInB := c2, hashEq := h, strA := ← chars sa, strB := ← chars sb }
+    | _ => throw "icase: 12 observation bits expected"
+  | _ => throw "icase: observation = [bits, strA, strB]"
+
+/-- model hash: the folded text itself, read as a number (injective enough; any function would do) -/
+def hashFn (s : List Char) : Nat := s.foldl (fun h c => h * 1114112 + c.toNat + 1) 0
+
+/-- correspondence on one pair: everything equal, except the hash bit, which is only constrained when equal -/
+def pairK (m i : PairObs) : Bool :=
+  ({ i with hashEq := m.hashEq } : PairObs) == m && (!m.eqAB || i.hashEq)
+
+/--
+`{"op":"icase","items":[[a,b] | [a,b,c], …], "impl":[[obs_ab] | [obs_ab,obs_bc,obs_ac], …]}`
+obs = `["<12 bits: eqAB eqBA neAB ltAB ltBA leAB leBA gtAB geAB bInA aInB hashEq>", str(A), str(B)]`.
+Answer: `{"model":[…same shape…], "k":{"C18":b}, "o":{"C18":null|clause}, "fail":[{"i":…,"k":b,"o":…}]}`.
+-/
+def opIcase (j : Json) : E Json := do
+  let items ← getArr j "items"
+  let impl := (optField j "impl")
+  let implArr ← match impl with
+    | some a => do let l ← asArr a; pure (some l)
+    | none => pure none
+  let mut models : Array Json := #[]
+  let mut fails : Array Json := #[]
+  let mut kAll := true
+  let mut oFirst : Option String := none
+  let mut idx := 0
+  for it in items do
+    let ss ← charsList it
+    let prs : List (List Char × List Char) ← match ss with
+      | [a, b] => pure [(a, b)]
+      | [a, b, c] => pure [(a, b), (b, c), (a, c)]
+      | _ => throw "icase: item must have 2 or 3 strings"
+    let ms := prs.map (fun p => modelPairObs hashFn p.1 p.2)
+    models := models.push (jarr (ms.map jobs))
+    if let some ia := implArr then
+      let io ← (← asArr (ia.getD idx Json.null)).mapM parseObs
+      if io.length != ms.length then throw "icase: impl/ items shape mismatch"
+      let k := (ms.zip io).all (fun p => pairK p.1 p.2)
+      let o1 := (prs.zip io).findSome? (fun p => checkC18 p.1.1 p.1.2 p.2)
+      let o := match o1, io with
+        | some e, _ => some e
+        | none, [ab, bc, ac] => checkC18Triple ab bc ac
+        | none, _ => none
+      if !k || o.isSome then
+        fails := fails.push (Json.mkObj [("i", jnat idx), ("k", jbool k), ("o", jopt o)])
+        kAll := kAll && k
+        if oFirst.isNone then oFirst := o
+    idx := idx + 1
+  let base := [("model", Json.arr models)]
+  if implArr.isSome then
+    return Json.mkObj (base ++ verdict "C18" kAll oFirst ++ [("fail", Json.arr fails)])
+  else return Json.mkObj base
+
+/-! ## C17 `bag` -/
+
+def stallOf (s : String) : E Stall :=
+  match s with
+  | "U" => pure .U | "S" => pure .S | "D" => pure .D
+  | _ => throw s!"bad stall label {s}"
+
+def decHI (j : Json) : E HI := do
+  let (i, l) ← pair2 j
+  return { idx := ← i.getNat?, st := ← stallOf (← l.getStr?) }
+
+def stallName : Stall → String
+  | .U => "NO_STALL" | .S => "STRUCTURAL" | .D => "DATA"
+
+/-- `repr(InstrState(...))` (attrs default repr; `stalled` is a `StrEnum`) -/
+def reprHI (h : HI) : String :=
+  "InstrState(instr=" ++ toString h.idx ++ ", stalled=<StallState." ++ stallName h.st ++ ": '" ++ h.st.code ++ "'>)"
+
+/-- `repr` of a `str` key without quotes, backslashes or non-printables (the harness's key alphabet) -/
+def reprKey (k : String) : String := "'" ++ k ++ "'"
+
+def strLeS (a b : String) : Bool := !(decide (b < a))
+
+def decRec {V : Type} (dec : Json → E V) (j : Json) : E (Bag.BagValDict String V) := do
+  let ents ← (← asArr j).mapM (fun e => do
+    let (k, vs) ← pair2 e
+    let vals ← (← asArr vs).mapM dec
+    pure ((← k.getStr?), vals))
+  return Bag.ofPairs ents
+
+def bagRun {V : Type} [DecidableEq V] (le : V → V → Bool) (vp : V → String) (dec : Json → E V) (j : Json) : E Json := do
+  let recs ← (← getArr j "recs").mapM (decRec dec)
+  let recsA := recs.toArray
+  let pairs ← (← getArr j "pairs").mapM (fun p => do let (a, b) ← pair2 p; pure ((← a.getNat?), (← b.getNat?)))
+  let mrecs := recs.map (fun r => (Bag.len r, Bag.repr strLeS le reprKey vp r))
+  let mrecsA := mrecs.toArray
+  let getRec (i : Nat) : E (Bag.BagValDict String V) :=
+    match recsA[i]? with | some r => pure r | none => throw "bag: record index out of range"
+  let impl := optField j "impl"
+  let implRecs ← match impl with
+    | some im => do
+      let l ← getArr im "recs"
+      let l' ← l.mapM (fun e => do let (n, r) ← pair2 e; pure ((← n.getNat?), (← r.getStr?)))
+      pure (some l'.toArray)
+    | none => pure none
+  let implPairs ← match impl with
+    | some im => do pure (some (← getArr im "pairs").toArray)
+    | none => pure none
+  let mut out : Array Json := #[]
+  let mut fails : Array Json := #[]
+  let mut kAll := true
+  let mut oFirst : Option String := none
+  -- per-record observations
+  if let some ir := implRecs then
+    if ir.size != mrecsA.size then throw "bag: impl.recs shape mismatch"
+    let mut ri := 0
+    for m in mrecs do
+      let i := ir.getD ri (0, "")
+      if i != m then
+        kAll := false
+        fails := fails.push (Json.mkObj [("rec", jnat ri), ("k", jbool false), ("model", jarr [jnat m.1, Json.str m.2])])
+      ri := ri + 1
+  let mut idx := 0
+  for (ia, ib) in pairs do
+    let a ← getRec ia
+    let b ← getRec ib
+    let m := modelBagObs strLeS le reprKey vp a b
+    out := out.push (jarr [Json.str (String.ofList [bit m.eqAB, bit m.eqBA, bit m.eqAB2]), jnat m.lenA2, Json.str m.reprA2])
+    if let (some ir, some ip) := (implRecs, implPairs) then
+      match (← asArr (ip.getD idx Json.null)) with
+      | [bits, l2, r2] =>
+        let bs := (← bits.getStr?).toList.map (· == '1')
+        let (ra, rb) := (ir.getD ia (0, ""), ir.getD ib (0, ""))
+        let r2s := match r2.getStr? with | .ok s => s | .error _ => ra.2
+        match bs with
+        | [e1, e2, e3] =>
+          let o : BagObs := { eqAB := e1, eqBA := e2, eqAB2 := e3, lenA := ra.1, lenB := rb.1, lenA2 := ← l2.getNat?,
+                              reprA := ra.2, reprB := rb.2, reprA2 := r2s }
+          let k := o == m
+          let oc := checkC17 a b o
+          if !k || oc.isSome then
+            fails := fails.push (Json.mkObj [("i", jnat idx), ("k", jbool k), ("o", jopt oc)])
+            kAll := kAll && k
+            if oFirst.isNone then oFirst := oc
+        | _ => throw "bag: 3 bits expected"
+      | _ => throw "bag: impl pair = [bits, lenA2, reprA2|null]"
+    idx := idx + 1
+  let base := [("model", Json.mkObj [("recs", jarr (mrecs.map (fun m => jarr [jnat m.1, Json.str m.2]))), ("pairs", Json.arr out)])]
+  if impl.isSome then return Json.mkObj (base ++ verdict "C17" kAll oFirst ++ [("fail", Json.arr fails)])
+  else return Json.mkObj base
+
+/--
+`{"op":"bag","vt":"hi"|"int","recs":[[[key,[v…]],…],…],"pairs":[[i,j],…],
+  "impl":{"recs":[[len,repr],…],"pairs":[["<eqAB eqBA eqAB2>",lenA2,reprA2|null],…]}}`
+values: `[idx,"U"|"S"|"D"]` (vt=hi) or integers (vt=int); `reprA2 = null` means "identical to repr before".
+-/
+def opBag (j : Json) : E Json := do
+  match (← getStr j "vt") with
+  | "hi" => bagRun HI.le reprHI decHI j
+  | "int" => bagRun (fun (a b : Int) => decide (a ≤ b)) (fun (i : Int) => toString i) (fun v => v.getInt?) j
+  | v => throw s!"bag: unknown value type {v}"
+
+/-! ## C14 `progtext`, `parse` -/
+
+def decWs (j : Json) : E LineWs := do
+  let commas ← (← getArr j "commas").mapM (fun p => do let (l, r) ← pair2 p; pure ((← chars l), (← chars r)))
+  return { blanks := ← charsList (← j.getObjVal? "blanks"), pre := ← getChars j "pre", sep := ← getChars j "sep",
+           commas := commas, post := ← getChars j "post" }
+
+def decFault (j : Json) : E (Option Fault) := do
+  if j.isNull then return none
+  match (← asArr j) with
+  | [k, a] => match (← k.getStr?) with
+    | "noops" => return some (.noOps (← a.getNat?))
+    | _ => throw "bad fault"
+  | [k, a, b] => match (← k.getStr?) with
+    | "empty" => return some (.emptyOp (← a.getNat?) (← b.getNat?))
+    | "extra" => return some (.extraEmpty (← a.getNat?) (← b.getNat?))
+    | _ => throw "bad fault"
+  | _ => throw "bad fault"
+
+structure Gen where
+  instrs : List SrcInstr      -- after applying the fault
+  ws : List LineWs
+  tail : List (List Char)
+  pre : Bool                  -- tokens / blanks satisfy the theorem's hypotheses
+
+def decGen (j : Json) : E Gen := do
+  let is ← (← getArr j "instrs").mapM (fun e => do
+    let (m, ops) ← pair2 e
+    pure ({ name := ← chars m, ops := ← charsList ops } : SrcInstr))
+  let ws ← (← getArr j "ws").mapM decWs
+  let tail ← charsList (← j.getObjVal? "tail")
+  let fault ← decFault ((optField j "fault").getD Json.null)
+  let pre := is.all (fun i => instrOK i && !i.ops.isEmpty && i.ops.all (fun o => !o.isEmpty)) &&
+    ws.all wsOK && tail.all blankB && ws.length == is.length
+  let is' := match fault with | none => is | some f => applyFault f is
+  return { instrs := is', ws := ws, tail := tail, pre := pre }
+
+def jprog (p : List Program.ProgInstr) : Json :=
+  jarr (p.map (fun i => jarr [jcharsList i.srcs, jchars i.dst, jchars i.name, jnat i.line]))
+
+def decProgInstr (j : Json) : E Program.ProgInstr := do
+  match (← asArr j) with
+  | [s, d, n, l] => return { srcs := ← charsList s, dst := ← chars d, name := ← chars n, line := ← l.getNat? }
+  | _ => throw "program instruction = [srcs, dst, name, line]"
+
+def jParseObs : ParseObs → Json
+  | .ok p => Json.mkObj [("ok", jprog p)]
+  | .err e => jerr e.cls [("line", jnat e.line), ("instr", jchars e.instr)] e.msg
+  | .other c => jerr c [] ""
+
+def decParseObs (j : Json) : E ParseObs := do
+  match optField j "ok" with
+  | some p => return .ok (← (← asArr p).mapM decProgInstr)
+  | none =>
+    let e ← implErr (← j.getObjVal? "err")
+    if e.cls == "CodeError" then
+      match (e.fields.getObjVal? "line").bind (·.getNat?), (e.fields.getObjVal? "instr").bind (·.getStr?) with
+      | .ok l, .ok i => return .err { cls := e.cls, line := l, instr := i.toList, msg := e.msg }
+      | _, _ => return .other (e.cls ++ "(ill-typed fields)")
+    else return .other e.cls
+
+def parseObsEq : ParseObs → ParseObs → Bool
+  | .ok a, .ok b => a == b
+  | .err a, .err b => a == b
+  | _, _ => false
+
+/--
+`{"op":"progtext","gen":{"instrs":[[mnemonic,[op…]],…],"ws":[{"blanks":[…],"pre":s,"sep":s,"commas":[[l,r],…],"post":s},…],
+   "tail":[…],"fault":null|["noops",j]|["empty",j,k]|["extra",j,k]}}`
+→ `{"lines":[…], "pre":bool}` : the text `renderProgram (applyFault fault instrs) ws tail`.
+-/
+def opProgtext (j : Json) : E Json := do
+  let g ← decGen (← j.getObjVal? "gen")
+  return Json.mkObj [("lines", jcharsList (renderProgram g.instrs g.ws g.tail)), ("pre", jbool g.pre)]
+
+/--
+`{"op":"parse","lines":[…],"gen":<as in progtext, optional>,
+  "impl":{"ok":[[[src…],dst,name,line],…]} | {"err":{"class":"CodeError","fields":{"line":n,"instr":s},"message":s}}}`
+→ `{"model":…same shape…, "k":{"C14":b}, "o":{"C14":null|clause}, "oapp":bool, "lines_match":bool}`.
+K: result equal (instructions / class, line, instr, message). O (only with `gen` whose hypotheses hold):
+`checkC14` of the implementation's result against the written instruction list.
+-/
+def opParse (j : Json) : E Json := do
+  let lines ← charsList (← j.getObjVal? "lines")
+  let m := modelParseObs lines
+  let base := [("model", jParseObs m)]
+  match optField j "impl" with
+  | none => return Json.mkObj base
+  | some ij =>
+    let io ← decParseObs ij
+    let k := parseObsEq m io
+    match optField j "gen" with
+    | none => return Json.mkObj (base ++ verdict "C14" k none ++ [("oapp", jbool false)])
+    | some gj =>
+      let g ← decGen gj
+      let lm := renderProgram g.instrs g.ws g.tail == lines
+      let o := if g.pre && lm then checkC14 g.instrs g.ws io else none
+      return Json.mkObj (base ++ verdict "C14" k o ++ [("oapp", jbool (g.pre && lm)), ("lines_match", jbool lm)])
+
+/-! ## C15 `isa`, `abilities`, `compile` -/
+
+def decPairs (j : Json) : E (List (List Char × List Char)) := do
+  (← asArr j).mapM (fun e => do let (a, b) ← pair2 e; pure ((← chars a), (← chars b)))
+
+def jpairs (l : List (List Char × List Char)) : Json := jarr (l.map (fun p => jarr [jchars p.1, jchars p.2]))
+
+def charsLe (a b : List Char) : Bool := ICase.strLe a b
+
+def sortPairs (l : List (List Char × List Char)) : List (List Char × List Char) :=
+  isort (fun a b => ICase.strLt a.1 b.1 || (a.1 == b.1 && charsLe a.2 b.2)) l
+
+def fieldChars (f : Json) (k : String) : Option (List Char) :=
+  match (f.getObjVal? k).bind (·.getStr?) with | .ok s => some s.toList | .error _ => none
+
+def decIsaObs (j : Json) : E (IsaObs × String) := do
+  match optField j "ok" with
+  | some p => return (.ok (← decPairs p), "")
+  | none =>
+    let e ← implErr (← j.getObjVal? "err")
+    match e.cls, fieldChars e.fields "old", fieldChars e.fields "new", fieldChars e.fields "elem" with
+    | "DupElemError", some o, some n, _ => return (.dup o n, e.msg)
+    | "UndefElemError", _, _, some c => return (.undef c, e.msg)
+    | c, _, _, _ => return (.other c, e.msg)
+
+def jIsaObs : IsaObs → Json
+  | .ok m => Json.mkObj [("ok", jpairs m)]
+  | .dup o n => jerr "DupElemError" [("old", jchars o), ("new", jchars n)] (Isa.IsaError.dupInstr o n).message
+  | .undef c => jerr "UndefElemError" [("elem", jchars c)] (Isa.IsaError.undefCap c).message
+  | .other c => jerr c [] ""
+
+def isaObsEq (m : IsaObs) (i : IsaObs) (imsg : String) : Bool :=
+  match m, i with
+  | .ok a, .ok b => sortPairs a == sortPairs b
+  | .dup o n, .dup o' n' => o == o' && n == n' && imsg == (Isa.IsaError.dupInstr o n).message
+  | .undef c, .undef c' => c == c' && imsg == (Isa.IsaError.undefCap c).message
+  | _, _ => false
+
+/--
+`{"op":"isa","isa":[[mnemonic,cap],…],"caps":[…],
+  "impl":{"ok":[[KEY,cap],…]} | {"err":{"class":"DupElemError","fields":{"old":s,"new":s},"message":s}}
+                              | {"err":{"class":"UndefElemError","fields":{"elem":s},"message":s}}}`
+→ `{"model":…, "k":{"C15":b}, "o":{"C15":…}}`; K compares the dict as a set of items, errors by class, fields, message.
+-/
+def opIsa (j : Json) : E Json := do
+  let isa ← decPairs (← j.getObjVal? "isa")
+  let caps ← charsList (← j.getObjVal? "caps")
+  let m := modelIsaObs isa caps
+  let base := [("model", jIsaObs m)]
+  match optField j "impl" with
+  | none => return Json.mkObj base
+  | some ij =>
+    let (io, msg) ← decIsaObs ij
+    return Json.mkObj (base ++ verdict "C15" (isaObsEq m io msg) (checkC15Load isa caps io))
+
+/-- `{"op":"abilities","ports":[[cap…],…] (in-out ports then input ports),"impl":[cap…]}` → model (sorted), k (equal as sets), o -/
+def opAbilities (j : Json) : E Json := do
+  let ports ← (← getArr j "ports").mapM charsList
+  let m := isort charsLe (Isa.getAbilities ports)
+  let base := [("model", jcharsList m)]
+  match optField j "impl" with
+  | none => return Json.mkObj base
+  | some ij =>
+    let io ← charsList ij
+    return Json.mkObj (base ++ verdict "C15" (isort charsLe io == m) (checkC15Abilities ports io))
+
+def decHw (j : Json) : E (Instr (List Char)) := do
+  match (← asArr j) with
+  | [s, d, c] => return { srcs := ← charsList s, dst := ← chars d, cap := ← chars c }
+  | _ => throw "hardware instruction = [srcs, dst, cap]"
+
+def jhw (p : List (Instr (List Char))) : Json :=
+  jarr (p.map (fun i => jarr [jcharsList i.srcs, jchars i.dst, jchars i.cap]))
+
+def decCompileObs (j : Json) : E CompileObs := do
+  match optField j "ok" with
+  | some p => return .ok (← (← asArr p).mapM decHw)
+  | none =>
+    let e ← implErr (← j.getObjVal? "err")
+    match e.cls, fieldChars e.fields "elem" with
+    | "UndefElemError", some n => return .undef n e.msg
+    | c, _ => return .other c
+
+def jCompileObs : CompileObs → Json
+  | .ok p => Json.mkObj [("ok", jhw p)]
+  | .undef n msg => jerr "UndefElemError" [("elem", jchars n)] msg
+  | .other c => jerr c [] ""
+
+def compileObsEq : CompileObs → CompileObs → Bool
+  | .ok a, .ok b => a == b
+  | .undef n m, .undef n' m' => n == n' && m == m'
+  | _, _ => false
+
+/--
+`{"op":"compile","prog":[[[src…],dst,name,line],…],"isa":[[KEY,cap],…],
+  "impl":{"ok":[[[src…],dst,cap],…]} | {"err":{"class":"UndefElemError","fields":{"elem":name},"message":s}}}`
+-/
+def opCompile (j : Json) : E Json := do
+  let prog ← (← getArr j "prog").mapM decProgInstr
+  let isa : List (List Char × List Char) :=
+    (← decPairs (← j.getObjVal? "isa")).foldl (fun m p => AMap.set m p.1 p.2) ([] : List (List Char × List Char))
+  let m := modelCompileObs isa prog
+  let base := [("model", jCompileObs m)]
+  match optField j "impl" with
+  | none => return Json.mkObj base
+  | some ij =>
+    let io ← decCompileObs ij
+    return Json.mkObj (base ++ verdict "C15" (compileObsEq m io) (checkC15Compile isa prog io))
+
+/-! ## C16 `render` -/
+
+def decCycle (j : Json) : E (Cli.Cycle String) := do
+  let ents ← (← asArr j).mapM (fun e => do
+    let (u, l) ← pair2 e
+    pure ((← u.getStr?), (← (← asArr l).mapM decHI)))
+  return Bag.ofPairs ents
+
+def jrows (r : List (List String)) : Json := jarr (r.map jstrs)
+
+def decRows (j : Json) : E (List (List String)) := do (← asArr j).mapM (fun r => do (← asArr r).mapM (·.getStr?))
+
+/--
+`{"op":"render","diagram":[[[unit,[[idx,"U"|"S"|"D"],…]],…],…],"n":n,"textsafe":bool,
+  "impl":{"ok":{"rows":[[cell…],…],"table":[[cell…],…],"text":s}} | {"err":{"class":…}}}`
+`rows` = `_get_sim_rows(enumerate(diagram), n)`, `table` = what `ResultWriter.print_sim_res(rows)` printed, read back
+with `csv.reader("excel-tab")`, `text` = the raw printed text (compared only when `textsafe`).
+→ `{"model":{"ok":{rows,table,text}}|{"err":{"class",…}}, "pre":diagramOK, "k":{"C16":b}, "o":{"C16":…}}`;
+O is evaluated on the implementation's table when `pre` holds.
+-/
+def opRender (j : Json) : E Json := do
+  let d ← (← getArr j "diagram").mapM decCycle
+  let n ← getNat j "n"
+  let pre := diagramOK d n
+  let m := Cli.simRows id d n
+  let mj := match m with
+    | .ok rows => Json.mkObj [("ok", Json.mkObj [("rows", jrows rows), ("table", jrows (Cli.table rows)),
+                                                 ("text", Json.str (Cli.csvText (Cli.table rows)))])]
+    | .error e => jerr e.pyClass [] (toString (repr e))
+  let base := [("model", mj), ("pre", jbool pre)]
+  match optField j "impl" with
+  | none => return Json.mkObj base
+  | some ij =>
+    match optField ij "ok" with
+    | some okj =>
+      let rows ← decRows (← okj.getObjVal? "rows")
+      let tbl ← decRows (← okj.getObjVal? "table")
+      let text ← getStr okj "text"
+      let safe := ((optField j "textsafe").bind (fun b => b.getBool?.toOption)).getD false
+      let k := match m with
+        | .ok mrows => mrows == rows && Cli.table mrows == tbl && (!safe || Cli.csvText (Cli.table mrows) == text)
+        | .error _ => false
+      let o := if pre then checkC16 id d n tbl else none
+      return Json.mkObj (base ++ verdict "C16" k o)
+    | none =>
+      let e ← implErr (← ij.getObjVal? "err")
+      let k := match m with
+        | .ok _ => false
+        | .error me => me.pyClass == e.cls
+      let o := if pre then some s!"gap-free diagram not rendered ({e.cls})" else none
+      return Json.mkObj (base ++ verdict "C16" k o)
+
+def handle : Driver.Handler := fun op j =>
+  match op with
+  | "icase" => some (opIcase j)
+  | "bag" => some (opBag j)
+  | "progtext" => some (opProgtext j)
+  | "parse" => some (opParse j)
+  | "isa" => some (opIsa j)
+  | "abilities" => some (opAbilities j)
+  | "compile" => some (opCompile j)
+  | "render" => some (opRender j)
+  | _ => none
+
 end Driver.TextOps
